@@ -1,16 +1,24 @@
-(* C12 driver: sequential histories, one case per line (same format as harness/C12/harness.cpp seq):
-     B <kind> <nprod> op...    op: p<i> | m<i> (producer i pushes its next seq)  c (consume)  s (size)  e (empty)
-     V <kind> <v0|-> op...     op: a<v> (assign)  u (update)  g (get)  r (ref)
-   The buffer cases run the *system* model tb_sys_step (producer programs = 0,1,2,... as often as
-   the producer occurs), the value cases the method-level functions. *)
+(* C12 driver.
+   driver seq        sequential histories on stdin, one case per line (same format as harness/C12/harness.cpp seq):
+       B <kind> <nprod> op...    op: p<i> | m<i> (producer i pushes its next seq)  c (consume)  s (size)  e (empty)
+       V <kind> <v0|-> op...     op: a<v> (assign)  u (update)  g (get)  r (ref)
+     The buffer cases run the *system* model tb_sys_step (producer programs = 0,1,2,... as often as
+     the producer occurs), the value cases the method-level functions.
+   driver tracebuf   a consumer history recorded by `harness stressbuf ... <tracefile>` on stdin; verdict of the
+                     extracted acceptance functions tb_accept / tb_accept_obs (first line), plus where it fails.
+   driver traceval   a consumer history recorded by `harness stressval ... <tracefile>`; verdict of tv_accept. *)
 let ios = int_of_string
 let rest s = ios (String.sub s 1 (String.length s - 1))
 let rec last = function [] -> failwith "last" | [x] -> x | _ :: t -> last t
 let pr_batch b = "[" ^ String.concat " " (List.map (fun (p, s) -> Printf.sprintf "%d.%d" (int_of_nat p) (int_of_n s)) b) ^ "]"
-let () =
+let words line = List.filter (fun s -> s <> "") (String.split_on_char ' ' line)
+let range_n lo hi = (* [lo; ...; hi-1] as N, built from the back *)
+  let rec go i acc = if i < lo then acc else go (i - 1) (n_of_int i :: acc) in go (hi - 1) []
+
+let seq_mode () =
   try while true do
     let line = input_line stdin in
-    let toks = List.filter (fun s -> s <> "") (String.split_on_char ' ' line) in
+    let toks = words line in
     match toks with
     | "B" :: _ :: np :: ops ->
       let np = ios np in
@@ -40,3 +48,95 @@ let () =
       print_endline (String.concat " ; " (List.rev outs))
     | _ -> print_endline ""
   done with End_of_file -> ()
+
+let tracebuf_mode () =
+  let hdr = words (input_line stdin) in
+  let np, npush = match hdr with ["TB"; a; b] -> ios a, ios b | _ -> failwith "bad header" in
+  let progs = List.init np (fun _ -> range_n 0 npush) in
+  let rounds = ref [] and complete = ref false and nel = ref 0 in
+  (try while true do
+      match words (input_line stdin) with
+      | "b" :: n :: e :: els ->
+        let b = List.rev (List.rev_map (fun t ->
+            let i = String.index t '.' in
+            let p = ios (String.sub t 0 i) and s = ios (String.sub t (i + 1) (String.length t - i - 1)) in
+            incr nel;
+            if p < 0 || s < 0 then (nat_of_int (np + 1), N0) else (nat_of_int p, n_of_int s)) els) in
+        rounds := ((n_of_int (ios n), e = "1"), b) :: !rounds
+      | ["END"] -> complete := true
+      | _ -> ()
+    done with End_of_file -> ());
+  let rounds = List.rev !rounds in
+  let batches = List.rev (List.rev_map snd rounds) in
+  let ok1 = tb_accept progs batches and ok2 = tb_accept_obs rounds in
+  if not !complete then print_endline "reject trace-incomplete"
+  else if ok1 && ok2 then Printf.printf "accept rounds=%d elements=%d\n" (List.length rounds) !nel
+  else begin
+    (* locate the failure with the same extracted functions, round by round *)
+    let rec walk i rem = function
+      | [] -> if all_nil rem then "round-check" else
+          "reject after the last batch the producers' programs are not exhausted: remaining per producer = " ^
+          String.concat "," (List.map (fun l -> string_of_int (List.length l)) rem)
+      | ((n, e), b) :: t ->
+        if not (round_ok ((n, e), b)) then
+          Printf.sprintf "reject round %d: size()=%d empty()=%b then consume() returned %d elements" i (int_of_n n) e (List.length b)
+        else (match take_elems rem b with
+            | Some rem' -> walk (i + 1) rem' t
+            | None ->
+              (* first offending element *)
+              let rec el k rem = function
+                | [] -> "?"
+                | x :: xs -> (match take_elems rem [x] with
+                    | Some rem' -> el (k + 1) rem' xs
+                    | None ->
+                      let p = int_of_nat (fst x) in
+                      let due = (try match List.nth rem p with d :: _ -> string_of_int (int_of_n d) | [] -> "none (program exhausted)" with _ -> "none (unknown producer)") in
+                      Printf.sprintf "reject batch %d position %d: element %d.%d, due from producer %d: %s" i k p (int_of_n (snd x)) p due) in
+              el 0 rem b) in
+    print_endline (walk 0 progs rounds)
+  end
+
+let traceval_mode () =
+  let hdr = words (input_line stdin) in
+  let n = match hdr with ["TV"; a] -> ios a | _ -> failwith "bad header" in
+  let vs = range_n 1 (n + 1) in
+  let evs = ref [] and complete = ref false and cnt = ref 0 in
+  let tv v = let v = ios v in if v < 0 then (n_of_int (n + 1), N0) else (n_of_int v, n_of_int v) in
+  (try while true do
+      (match words (input_line stdin) with
+       | ["u1"; v] -> evs := HEv (EvUpdate (true, tv v)) :: !evs
+       | ["u0"; v] -> evs := HEv (EvUpdate (false, tv v)) :: !evs
+       | ["g"; v] -> evs := HEv (EvGet (tv v)) :: !evs
+       | ["q"; i] -> evs := HQuiet (n_of_int (ios i)) :: !evs
+       | ["END"] -> complete := true
+       | _ -> ());
+      incr cnt
+    done with End_of_file -> ());
+  let evs = List.rev !evs in
+  if not !complete then print_endline "reject trace-incomplete"
+  else if tv_accept N0 vs evs then Printf.printf "accept events=%d\n" (List.length evs)
+  else begin
+    (* longest accepted prefix, by bisection on tv_accept_prefix *)
+    let arr = Array.of_list evs in
+    let pre k = Array.to_list (Array.sub arr 0 k) in
+    let lo = ref 0 and hi = ref (Array.length arr) in
+    if tv_accept_prefix N0 vs evs then
+      print_endline "reject the history is coherent but does not end with the last assigned value obtained"
+    else begin
+      while !hi - !lo > 1 do
+        let mid = (!lo + !hi) / 2 in
+        if tv_accept_prefix N0 vs (pre mid) then lo := mid else hi := mid
+      done;
+      let show = function
+        | HEv (EvUpdate (b, v)) -> Printf.sprintf "update()=%b get()=%d" b (int_of_n (snd v))
+        | HEv (EvGet v) -> Printf.sprintf "get()=%d" (int_of_n (snd v))
+        | HQuiet i -> Printf.sprintf "quiescent(%d)" (int_of_n i) in
+      Printf.printf "reject event %d: %s after %s\n" !lo (show arr.(!lo)) (if !lo > 0 then show arr.(!lo - 1) else "start")
+    end
+  end
+
+let () =
+  match (if Array.length Sys.argv > 1 then Sys.argv.(1) else "seq") with
+  | "tracebuf" -> tracebuf_mode ()
+  | "traceval" -> traceval_mode ()
+  | _ -> seq_mode ()
